@@ -378,12 +378,13 @@ def r_helpers(ctx, model):
                                   f"polynomial in ln V of the chosen order are not reproduced (degree too low) or fewer volumes than expected suffice (too high)",
                       key=f"{method}.degree")
             rc = it.opts.get("rcond")
+            from ..interpmodel import default_or_smaller_cutoff
             try:
-                rc_ok = rc is None or float(as_sym(rc)) <= 1e-14
+                rc_ok = default_or_smaller_cutoff(rc, ncols)
             except (TypeError, ValueError, AnalysisError):
                 rc_ok = False
             ctx.check(rc_ok, f"{method}: least squares keeps the full column rank (rcond at machine precision)", w,
-                      expected="rcond omitted, None, -1 or <= 1e-14", found=f"rcond = {rc}",
+                      expected="rcond omitted, None, -1, or at most numpy's own default eps * max(M, N)", found=f"rcond = {rc}",
                       explanation=f"method {method!r}: numpy.linalg.lstsq is given rcond = {rc}; singular directions of the ln V Vandermonde "
                                   f"matrix below that cut-off are dropped, so data that are polynomial in ln V of the chosen order (and, at "
                                   f"orders 4-5, even pure power laws) are no longer reproduced exactly", key=f"{method}.rcond")
